@@ -452,9 +452,12 @@ def main(argv=None):
     print("%s tier=%s seed=%d cases=%d nontrivial=%d distinct_nontrivial=%d inconclusive=%d wall=%.1fs" % (
         pid, tier, seed, coverage["evaluations"], merged["nontrivial"], coverage["distinct_nontrivial"],
         merged["inconclusive"], wall))
-    for (c, ic), n in sorted(known_hits.items()):
-        e = match_known(known, dict(clause=c, input_class=ic))
-        print("KNOWN-FINDING: property=%s %s (clause %s, %d hits)" % (pid, ic, c, n))
+    # every listed finding of this property is printed on every run, with the number of cases that hit it
+    for e in known:
+        c, ic = e.get("clause"), e.get("input_class")
+        n = known_hits.get((c, ic), 0)
+        print("KNOWN-FINDING: property=%s %s (clause %s, %d hits%s)" % (
+            pid, ic, c, n, "" if n else " in this run; schedule-dependent, see known_findings.json"))
     if harness_errors:
         for h in harness_errors[:3]:
             print("HARNESS-ERROR: " + h)
